@@ -36,11 +36,11 @@ def json_db(db):
     return {k: [i.hex() for i in v] for k, v in db.items()}
 
 
-def make_db(name, cfg, rng):
+def make_db(name, cfg, rng, prof=None):
     """text keywords (the JSON path needs them), valid for the scheme"""
     ids = cfg.get("param_identifier_size", 8)
     lim = se.kw_limit(name, cfg)
-    prof = rng.choice(["mixed", "boundary", "pow2", "many_small", "one", "big_list"])
+    prof = prof or rng.choice(["mixed", "boundary", "pow2", "many_small", "one", "big_list"])
     raw = se.gen_db(name, cfg, rng, prof)
     db = {}
     for n, (w, v) in enumerate(raw.items()):
@@ -181,8 +181,9 @@ def correspond(ctx):
             cfgs = se.grid(name, rng, ctx.pick(2, 4))
             for cfg in cfgs:
                 scheds = SCHEDULES if ctx.thorough else [SCHEDULES[rng.randrange(2)], SCHEDULES[2 + rng.randrange(2)], SCHEDULES[4]]
-                for sch in scheds:
-                    db, prof = make_db(name, cfg, rng)
+                for si, sch in enumerate(scheds):
+                    # one workflow per configuration carries a list of 40-90 identifiers (as far as the scheme's capacity allows)
+                    db, prof = make_db(name, cfg, rng, "wide" if si == 0 else None)
                     c = se.finalize_cfg(name, cfg, {k.encode(): v for k, v in db.items()})
                     plan.append((name, c, db, prof, sch))
 
@@ -250,7 +251,7 @@ def correspond(ctx):
                                  dict(case, keyword=hx(w)))
         res.rule = ("all nine schemes x configurations of the small grid x schedules {client re-created at every step; + server restart after "
                     "the upload; one client object for the local steps + restart after both uploads; restarts between searches}; database given as "
-                    "JSON (utf-8 keywords incl. non-ASCII, hex identifiers); every stored keyword and two adversarially close absent ones searched; "
+                    "JSON (utf-8 keywords incl. non-ASCII, hex identifiers; one workflow per configuration with a list of 40-90 identifiers); every stored keyword and two adversarially close absent ones searched; "
                     "non-trivial = distinct (scheme, schedule, list-length vector)")
         for (name, cfg, db, prof, sch) in plan[:2]:
             res.sample({"scheme": name, "schedule": sch["name"], "keywords": list(db)[:3]})
